@@ -85,6 +85,10 @@ def gen_trace(recipe):
     store = store.astype(np.float32)
   elif sdt in ('int64', 'int16'):
     store = np.round(store * 4.0).astype(sdt)
+  elif sdt == 'uint8':
+    # image-like data: every coordinate in 0..255 (differences of points do not fit the type)
+    q = np.round(store * 8.0)
+    store = np.clip(q - q.min(axis=0), 0, 255).astype(np.uint8)
   events = []
   # ---- fit under the four representations
   if kind in ('pairs', 'triplets', 'quadruplets'):
@@ -285,7 +289,7 @@ def run(ctx):
         pick = rng.choice(len(lst), size=min(per, len(lst)), replace=False)
         sub[size] = [lst[int(i)] for i in pick]
       rs.append(dict(est=name, d=int(rng.integers(2, 5)), seed=int(rng.integers(1 << 30)), patterns=sub,
-                     store_dtype=['float64', 'float32', 'float64', 'int64', 'int16', 'float64', 'float32', 'int64'][(k + gen.ALL.index(name)) % 8]))
+                     store_dtype=['float64', 'float32', 'uint8', 'int64', 'int16', 'float64', 'uint8', 'int64'][(k + gen.ALL.index(name)) % 8]))
   ctx.rule = ('index arrays enumerated by TLC from MC_Preproc (%d patterns: <= 2 rows over 3 points, tuple sizes 1..4) plus '
               'random patterns with repeats up to 8 rows, sampled %d per size per trace, issued to all 17 estimators x every '
               'data-taking method x 4 representations x random integer dtypes; fit with permuted / tuple index arrays; '
